@@ -24,6 +24,7 @@ var files = []genFile{
 	{"SymFacts.lean", genSymFacts},
 	{"ConvReg.lean", genConvReg},
 	{"Conv.lean", genConv},
+	{"Opcodes.lean", genOpcodes},
 }
 
 func main() {
